@@ -613,6 +613,10 @@ func (idx *indexer) mapKey(key []byte, vLen int, vOff int64, hVal [sha256.Size]b
 		return key, nil
 	}
 
+	if vLen < 0 || vLen > idx.store.maxValueLen {
+		return nil, fmt.Errorf("%w: value length exceeds the maximum", ErrCorruptedTxData)
+	}
+
 	buf := idx.valBuffer(vLen)
 	_, err = idx.store.readValueAt(buf, vOff, hVal, false)
 	if err != nil {
